@@ -157,12 +157,12 @@ func lenClass(n int) string {
 var edgeLens = []int{7, 8, 9, 15, 16, 17, 18, 19, 23, 24, 25, 31, 32, 33, 63, 64, 65, 127, 128, 129, 255, 256, 257, 1023, 1024, 1025, 4095, 4096, 4097}
 
 func drawLen(t *rapid.T, label string) int {
-	switch k := rapid.IntRange(0, 19).Draw(t, label+".kind"); {
-	case k < 10:
+	switch k := rapid.IntRange(0, 49).Draw(t, label+".kind"); {
+	case k < 26:
 		return rapid.IntRange(0, 80).Draw(t, label)
-	case k < 16:
+	case k < 40:
 		return rapid.IntRange(81, 4096).Draw(t, label)
-	case k < 19:
+	case k < 49:
 		return rapid.SampledFrom(edgeLens).Draw(t, label)
 	}
 	return rapid.IntRange(65500, 70100).Draw(t, label)
